@@ -59,8 +59,15 @@ def _line_var_and_fields(ctx, fn) -> T.Tuple[str, T.Dict[str, ast.AST], ast.AST,
     ctx.require(isinstance(lines_src, ast.Call) and isinstance(lines_src.func, ast.Attribute) and lines_src.func.attr == "splitlines",
                 f"status lines do not come from .splitlines(): `{unparse(lines_src)[:60]}`")
     out_src = shapes.resolve_alias(fn, lines_src.func.value)
+    stripped = False
+    while isinstance(out_src, ast.Call) and isinstance(out_src.func, ast.Attribute) and out_src.func.attr in ("strip", "lstrip", "rstrip") and not out_src.args:
+        stripped = stripped or out_src.func.attr in ("strip", "lstrip")
+        out_src = shapes.resolve_alias(fn, out_src.func.value)
     ctx.require(isinstance(out_src, ast.Call) and const_str(out_src.args[0] if out_src.args else None) == "status",
                 "status output does not come from self('status')")
+    ctx.check("R3", not stripped, "VCSAPI.status: the command output is split into lines without stripping its leading whitespace",
+              "vcs.VCSAPI.status: the whole status output is left-stripped (the first line loses its blank index column: ' M README.md' is parsed one column off)",
+              "`.strip()` / `.lstrip()` on the output of self('status') before splitlines()", loc=fn.loc(), witness={"output": " M README.md\n?? x", "first line after strip": "M README.md"})
     return line, fields, ret.elt, list(gen.ifs)
 
 
